@@ -177,6 +177,10 @@ func (c *completion) complete(args []string) []Completion {
 
 	var opt *Option
 
+	// Whether a plain argument was seen: the parser then no longer looks for
+	// (sub)commands
+	seenarg := false
+
 	for len(s.args) > 1 {
 		arg := s.pop()
 
@@ -233,8 +237,10 @@ func (c *completion) complete(args []string) []Completion {
 					// it consumes all subsequent args).
 					s.positional = s.positional[1:]
 				}
-			} else if cmd, ok := s.lookup.commands[arg]; ok {
+			} else if cmd, ok := s.lookup.commands[arg]; ok && !seenarg {
 				cmd.fillParseState(s)
+			} else {
+				seenarg = true
 			}
 
 			opt = nil
@@ -279,7 +285,7 @@ func (c *completion) complete(args []string) []Completion {
 	} else if len(s.positional) > 0 {
 		// Complete for positional argument
 		ret = c.completeValue(s.positional[0].value, "", lastarg)
-	} else if len(s.command.commands) > 0 {
+	} else if len(s.command.commands) > 0 && !seenarg {
 		// Complete for command
 		ret = c.completeCommands(s, lastarg)
 	}
